@@ -74,6 +74,12 @@ package hessian
 //@   proves [C01,C07:field-ulong]  err == nil && (fk == K.Uint64 || fk == K.Uint || fk == K.Uint32) ==> one && @lastsetk == 2 && @lastseti == uint64(G.decLongT(t0, @in, old(@pos) + 1)) && @pos == old(@pos) + 1 + G.longRest(t0)
 //@   proves [C01:field-bool]       err == nil && fk == K.Bool ==> one && @lastsetk == 4 && @lastsetb == (t0 == 'T') && @pos == old(@pos) + 1
 //@   proves [C01,C08:field-double] err == nil && (fk == K.Float32 || fk == K.Float64) ==> one && @lastsetk == 3 && same(@lastsetf, G.decDoubleT(t0, @in, old(@pos) + 1)) && @pos == old(@pos) + 1 + G.doubleRest(t0)
+//@   let p1 = old(@pos) + 1
+//@   let av = old(@pos) < len(@in)
+//@   proves [C01,C07:field-int-accepts]    av && (fk == K.Int32 || fk == K.Int || fk == K.Int16 || fk == K.Int8 || fk == K.Uint8 || fk == K.Uint16) && G.isInt(t0) && p1 + G.intRest(t0) <= len(@in) ==> err == nil
+//@   proves [C01,C07:field-long-accepts]   av && (fk == K.Int64 || fk == K.Uint64 || fk == K.Uint || fk == K.Uint32) && G.isLong(t0) && p1 + G.longRest(t0) <= len(@in) ==> err == nil
+//@   proves [C01,C08:field-double-accepts] av && (fk == K.Float32 || fk == K.Float64) && G.isDouble(t0) && p1 + G.doubleRest(t0) <= len(@in) ==> err == nil
+//@   proves [C01:field-bool-accepts]       av && fk == K.Bool && G.isBool(t0) ==> err == nil
 //@   proves [C01,C09:field-string] err == nil && fk == K.String ==> (str != "" ==> one && @lastsetk == 5 && @lastsets == str) && (str == "" ==> @rset == old(@rset))
 //@   ensures [C06:tables-grow] len(d.clsDefList) >= len(old(d.clsDefList)) && len(d.refList) >= len(old(d.refList)) && len(d.typList) >= len(old(d.typList))
 
